@@ -117,8 +117,9 @@ def finish(pid, tier, level, results, t0, explanation, assumptions, outside, ext
         'level': level, 'coverage': cov, 'assumptions': assumptions,
         'wall_s': round(time.time() - t0, 1), 'violations': len(violations),
     }
-    os.makedirs(os.path.join(VERIF, 'evidence'), exist_ok=True)
-    with open(os.path.join(VERIF, 'evidence', f'{pid}.json'), 'w') as f:
+    evdir = os.environ.get('VERIF_EVIDENCE_DIR') or os.path.join(VERIF, 'evidence')
+    os.makedirs(evdir, exist_ok=True)
+    with open(os.path.join(evdir, f'{pid}.json'), 'w') as f:
         json.dump(ev, f, indent=1, default=str)
     if violations:
         for r in violations:
